@@ -729,7 +729,7 @@ PROPERTY = {
     "level": "other",
     "explanation": "Collapse and the measurement step are proved for every (real) amplitude vector with the random draw opaque (z3, nonlinear reals); the splitting of a circuit at "
                    "its measurements is checked on every enumerated gate list. The Born-rule sums over all outcome strings, classical control (dictionary / function / class / "
-                   "nested) and sampled runs execute the real backend code from the AST with cirq native and are compared with an independent exact branching evolution: bounded. Unbounded: get_unitary_circuit_pieces on circuits of ANY length (P1, loop cut with the four accumulators as ghost lists).",
+                   "nested) and sampled runs execute the real backend code from the AST with cirq native and are compared with an independent exact branching evolution: bounded. Unbounded: get_unitary_circuit_pieces on circuits of ANY length (P1, loop cut with the four accumulators as ghost lists). Wide deterministic sampled runs (O9) also start from user-supplied basis states and go through the noise-model (density-matrix) route with desired outcomes.",
     "bounds": {"quick": "collapse on 1-2 qubits symbolically (3 qubits, complex, natively); 4 circuits with 1-3 MEASURE gates on <= 3 qubits, all outcome strings, with and without initial statevector; 4 control styles",
                "thorough": "same"},
     "assumptions": ["cirq simulator executed natively (assumed; see C01)", "np.linalg.norm on symbolic vectors modelled as sqrt(sum |x|^2); np.random.random opaque", "floats as reals; tolerance 1e-9 on simulated values"],
